@@ -4,9 +4,12 @@ import os, sys
 sys.path.insert(0, os.path.dirname(os.path.abspath(__file__)))
 from vlib import *
 res = Result('setup', 'quick', 0)
-for name, Name in [('ordered', 'Ordered')]:
+import wbsync
+wbsync.sync()
+for name, Name in [('ordered', 'Ordered'), ('rope', 'Rope')]:
     build_ocaml(res, name, Name)
 cargo_build(res, os.path.join(V, 'harness', 'bb'), 'bb')
+cargo_build(res, os.path.join(V, 'harness', 'wb'), 'wb')
 for b in res.broken:
     print('SETUP-PROBLEM', b)
 sys.exit(1 if res.broken else 0)
